@@ -44,13 +44,22 @@ def model_requests(case, obs):
 
 
 def judge(case, obs, resps):
-    j = _base(case, obs, resps[:1])
-    model_addr = resps[1].get("ok") if len(resps) > 1 else None
+    model_addr = resps[-1].get("ok")
+    parts = B.parts_of(case, obs)
+    js = [judge1(c, o, r, model_addr) for (c, o), r in zip(parts, resps[:-1])]
+    bad = [j for j in js if not j.spec_ok] or [j for j in js if not j.agree]
+    j = bad[0] if bad else js[0]
+    j.case = case
+    j.nontrivial = len(case["handlers"]) >= 2
+    return j
+
+
+def judge1(case, obs, resp, model_addr):
+    j = _base(case, obs, [resp])
     if j.kind == "infra" or not j.agree:
         return j
     calls = obs.get("calls", [])
-    fname = None
-    req = resps[0].get("ok", {}).get("request", {})
+    req = resp.get("ok", {}).get("request", {})
     if req.get("kind") == "transfer":
         fname = req["filename"]
         # every call carries the undecoded file name, the handler's own context, and the true addresses
@@ -72,7 +81,6 @@ def judge(case, obs, resps):
                 if c[4] != exp:
                     return Judgement(case, False, j.agree, {"call": c, "expected_server_address": exp}, j.kind, True,
                                      "server_address")
-    j.nontrivial = len(case["handlers"]) >= 2
     return j
 
 
@@ -106,6 +114,8 @@ def gen(rng, tier, mult=1):
         if rng.random() < 0.8:
             case["dst"] = rng.choice(["::1", "::ffff:192.0.2.1", "2001:db8::5", "fe80::1"])
         yield case
+    for i in range(60 if tier == "quick" else 1500):
+        yield T.gen_multi_case(rng)
 
 
 import http_common  # noqa: E402
